@@ -247,7 +247,12 @@ func colScenario(r *vk.Run, kind string, withInit bool, steps []step, bp bool, u
 	desc := fmt.Sprintf("%s/%s init=%v %s", kind, mode, withInit, renderSteps(steps))
 	replay := map[string]any{"kind": kind, "init": withInit, "steps": steps, "bp": bp, "updatesOnly": updatesOnly}
 	ro := []resource.ReadOption{resource.WithUpdatesOnly(updatesOnly)}
-	if bp || len(steps)%2 == 0 {
+	switch {
+	case len(steps)%3 == 0:
+		// the option given twice: like every option of this package the later one decides
+		ro = append(ro, resource.WithBackpressure(!bp), resource.WithBackpressure(bp))
+		r.Count("subscribers-with-backpressure-option-overridden", 1)
+	case bp || len(steps)%2 == 0:
 		ro = append(ro, resource.WithBackpressure(bp))
 	} // else: no backpressure option at all, the documented default is "off"
 	if kind == "pull" {
